@@ -2,7 +2,7 @@
   Line-protocol driver (DESIGN Appendix B): one operation per line on stdin, one
   observation per line on stdout.  Core-only, compiled as `lean_exe drv`.
 -/
-import Wsp.Model.Whisper
+import Wsp.Model.World
 import Wsp.Model.Text
 import Wsp.Model.Cmd
 import Wsp.Spec.Oracles
@@ -128,42 +128,33 @@ def withHandle (st : St) (f : Handle → St × String) : St × String :=
 
 def setH (st : St) (h : Handle) : St := { st with w := { st.w with h := some h } }
 
+def obsStr : OpObs → String
+  | .ok => "ok" | .noHandle => "nohandle" | .fault f => faultStr f
+  | .errExists => "err exists" | .errNotExist => "err notexist"
+
+def doOp (st : St) (op : LibOp) : St × String :=
+  let (w, ob) := st.w.step o op
+  ({ st with w := w }, obsStr ob)
+
 def stepLib (st : St) (toks : List String) : Option (St × String) :=
   match toks with
   | ["reset"] => some ({}, "ok")
   | ["create", lay, agg, xff] => do
     let lay ← parseLay lay; let agg ← agg.toNat?; let xff ← natOfHex xff
-    match st.w.disk with
-    | some _ => return ({ st with w := { st.w with h := none } }, "err exists")
-    | none =>
-      match createHandle o agg (UInt32.ofNat xff) lay with
-      | .ok (disk, h) => return ({ st with w := ⟨some disk, some h⟩ }, "ok")
-      | .error e => return (st, faultStr e)
-  | ["open"] =>
-    match st.w.disk with
-    | none => some (st, "err notexist")
-    | some d =>
-      match openBytes o d with
-      | .ok h => some (setH st h, "ok")
-      | .error e => some ({ st with w := { st.w with h := none } }, faultStr e)
+    return doOp st (.create lay agg (UInt32.ofNat xff))
+  | ["open"] => some (doOp st .open_)
   | ["setdisk", hex] => do
     let b ← bytesOfHex hex
-    return ({ st with w := ⟨some b, none⟩ }, "ok")
-  | ["rmdisk"] => some ({ st with w := ⟨none, none⟩ }, "ok")
-  | ["sync"] => some <| withHandle st fun h => ({ st with w := ⟨some h.view, some h⟩ }, "ok")
-  | ["drop"] => some ({ st with w := { st.w with h := none } }, "ok")
+    return doOp st (.setDisk b)
+  | ["rmdisk"] => some (doOp st .rmDisk)
+  | ["sync"] => some (doOp st .sync)
+  | ["drop"] => some (doOp st .drop)
   | ["upd", k, t, v, now] => do
     let k ← k.toInt?; let t ← t.toNat?; let v ← parseVal v; let now ← now.toNat?
-    return withHandle st fun h =>
-      match h.updatePoint o k t v now with
-      | .ok h' => (setH st h', "ok")
-      | .error e => (st, faultStr e)
+    return doOp st (.upd k t v now)
   | ["updmany", k, now, pts] => do
     let k ← k.toInt?; let now ← now.toNat?; let pts ← parsePts pts
-    return withHandle st fun h =>
-      match h.updateMany o pts k now with
-      | .ok h' => (setH st h', "ok")
-      | .error e => (st, faultStr e)
+    return doOp st (.updMany k now pts)
   | ["fetch", k, f, u, now] => do
     let k ← k.toInt?; let f ← f.toNat?; let u ← u.toNat?; let now ← now.toNat?
     return withHandle st fun h =>
@@ -176,6 +167,27 @@ def stepLib (st : St) (toks : List String) : Option (St × String) :=
       match h.rawPoints k with
       | .ok ps => (st, s!"ok {ptsStr ps}")
       | .error e => (st, faultStr e)
+  | ["gwfetch", f, u, now] => do
+    -- the reference reader opens the file afresh: the disk image, best archive
+    let f ← f.toNat?; let u ← u.toNat?; let now ← now.toNat?
+    match st.w.disk with
+    | none => return (st, "err")
+    | some d =>
+      match openBytes o d with
+      | .error e => return (st, faultStr e)
+      | .ok h =>
+        match h.fetchFromArchive (-1) f u now with
+        | .ok s => return (st, seriesStr s)
+        | .error e => return (st, faultStr e)
+  | ["gwmeta"] =>
+    match st.w.disk with
+    | none => some (st, "err")
+    | some d =>
+      match openBytes o d with
+      | .error e => some (st, faultStr e)
+      | .ok h =>
+        let lay := ",".intercalate (h.hdr.archives.map fun a => s!"{a.step}:{a.n}")
+        some (st, s!"ok {h.hdr.agg} {h.hdr.maxRet} {hexOfNat 8 h.hdr.xff.toNat} {lay}")
   | ["header"] => some <| withHandle st fun h => (st, s!"ok {headerStr h.hdr}")
   | ["disk", hdr] => do
     let hdr ← hdr.toNat?
